@@ -3,14 +3,14 @@
 set -u
 ID=$1; shift
 CHECKS="${@:-$ID}"
-WT=/tmp/seed/$ID; OUT=/tmp/seed/$ID-out; TGT=/tmp/seed/$ID-target
+R=${SEED_ROOT:-/tmp/seed}; WT=$R/$ID; OUT=$R/$ID-out; TGT=$R/$ID-target
 cd $WT || exit 2
 echo "== $ID: patch"; git diff --stat | tail -3
 if ! diff <(git diff) $OUT/patch.diff >/dev/null; then echo "NOTE: worktree diff differs from patch.diff"; fi
 echo "== demo WITH change (expect failure)"
-( CARGO_TARGET_DIR=$TGT CARGO_NET_OFFLINE=true bash $OUT/demo.sh >/tmp/seed/$ID-demo-with.log 2>&1 ); echo "exit=$?"
+( CARGO_TARGET_DIR=$TGT CARGO_NET_OFFLINE=true bash $OUT/demo.sh >$R/$ID-demo-with.log 2>&1 ); echo "exit=$?"
 git apply -R $OUT/patch.diff   # (not git stash: the stash is shared between worktrees)
 echo "== demo WITHOUT change (expect success)"
-( CARGO_TARGET_DIR=$TGT CARGO_NET_OFFLINE=true bash $OUT/demo.sh >/tmp/seed/$ID-demo-without.log 2>&1 ); echo "exit=$?"
+( CARGO_TARGET_DIR=$TGT CARGO_NET_OFFLINE=true bash $OUT/demo.sh >$R/$ID-demo-without.log 2>&1 ); echo "exit=$?"
 git apply $OUT/patch.diff
 git status --short | head -5
